@@ -404,6 +404,17 @@ class CextProxy:
         return getattr(self.__dict__["_real"], name)
 
 
+def _fmt_cpulist(cpus):
+    out, i = [], 0
+    while i < len(cpus):
+        j = i
+        while j + 1 < len(cpus) and cpus[j + 1] == cpus[j] + 1:
+            j += 1
+        out.append("%d" % cpus[i] if i == j else "%d-%d" % (cpus[i], cpus[j]))
+        i = j + 1
+    return ",".join(out)
+
+
 def _mk_routed(w):
     def find(pid, what):
         pid = _c_int(pid)
@@ -448,15 +459,18 @@ def _mk_routed(w):
         if not isinstance(cpus, (list, tuple)):
             raise TypeError("sequence argument expected, got %r" % type(cpus))
         cpus = [int(c) for c in cpus]
-        for c in cpus:
-            if c < 0 or c >= 1024:
-                raise ValueError("invalid CPU value")
+        if -1 in cpus:
+            raise ValueError("invalid CPU value")
+        # glibc's CPU_SET() silently ignores indexes outside cpu_set_t (1024 bits)
+        cpus = [c for c in cpus if 0 <= c < 1024]
         pid, p = find(pid, "affinity_set")
         eff = set(cpus) & set(w.eligible_cpus(p))
         if not eff:
             raise oserr(errno.EINVAL)
         w.effects.append(("affinity_set", pid, (tuple(sorted(set(cpus))),), p.uid))
         p.affinity = eff
+        # the kernel's Cpus_allowed_list is the task's *current* mask
+        p.cpus_allowed_list = _fmt_cpulist(sorted(eff))
 
     def linux_sysinfo():
         w.point("syscall:sysinfo", None, None)
